@@ -34,7 +34,10 @@ func vc08(maxSpecies, maxArrive int) {
 		for k := 0; k < members; k++ {
 			o := &Organism{Genotype: tinyGenome(gid), Species: sp}
 			gid++
-			sp.Organisms = append(sp.Organisms, o)
+			sp.addOrganism(o)
+		}
+		if members == 2 && vChoice("members re-ordered since they joined (fitness sort)", 2) == 1 {
+			sp.Organisms[0], sp.Organisms[1] = sp.Organisms[1], sp.Organisms[0]
 		}
 		pop.Species = append(pop.Species, sp)
 	}
